@@ -73,7 +73,9 @@ def main():
     # 2. run the checks against it
     log["checks"] = {}
     log["mode"] = "VERIF_REPO=scratch worktree" if a.scratch else "patch applied to /repo and undone"
-    env = dict(os.environ, VERIF_REPO=wt) if a.scratch else None
+    env = dict(os.environ, VERIF_EVIDENCE_DIR="/tmp/verif_seed_evidence")
+    if a.scratch:
+        env["VERIF_REPO"] = wt
     if not a.scratch:
         rc, o = sh(["git", "-C", "/repo", "status", "--porcelain"])
         if o.strip():
